@@ -548,6 +548,11 @@ def replay(pid: str, path: str) -> int:
           f'event_digest_equal={same_events} '
           f'value_digest_equal={same_values}')
     if same_clause and same_events:
+        kf = match_finding(pid, rp['plan'], rec['violations'],
+                           load_findings())
+        if kf is not None:
+            print(f'KNOWN-FINDING: property={pid} {kf["text"]}')
+            return 0
         print(f'VIOLATION property={pid} replay={path}')
         return 1
     if not rec['violations']:
